@@ -38,6 +38,18 @@ QueryChecks(t, o) ==
   << <<"C08.query.total-bonded=sum", o.total = TotalBonded(t) /\ \A d \in Denoms : o.totalBy[d] = BondedOf(t, d)>>,
      <<"C08.query.withdrawable=payable", \A u \in Users, d \in Denoms : o.withdrawable[u][d] = Payable(t, u, d)>> >>
 
+\* beyond the listed properties: the bonding weights the lair reports (the fee distributor splits an epoch by them)
+\* never add up to more than the global weight, and the shares never to more than 100 %.  Names starting with "X." are
+\* additional specification, reported like drift and never as a violation of a listed property.
+RECURSIVE SumOver(_, _)
+SumOver(f, S) == IF S = {} THEN Zero ELSE LET u == CHOOSE x \in S : TRUE IN f[u] ++ SumOver(f, S \ {u})
+WeightChecks(o) ==
+  LET bonders == { u \in Users : o.weights[u].res = "ok" } IN
+  << <<"X.lair.weights-add-up-to-at-most-the-global-weight",
+        bonders # {} => \A g \in { o.weights[u].global : u \in bonders } :
+                          SumOver([u \in Users |-> IF u \in bonders THEN o.weights[u].weight ELSE Zero], Users) \preceq g>>,
+     <<"X.lair.shares-add-up-to-at-most-100%",
+        SumOver([u \in Users |-> o.weights[u].share], Users) \preceq DEC>> >>
 Unchanged(ev, t) ==
   << <<"C08.rejected.unchanged", t = st>>, <<"C08.rejected.digest", ev.dpre = ev.dpost>> >>
 
@@ -65,7 +77,7 @@ EvChecks(ev, t) ==
                \o << <<"C08.withdraw.matured-rejected", Payable(st, u, d) = Zero>> >>
      [] ev.ev = "tick" -> ObsChecks(TickNext(st, ev.args.dt), ev.obs)
      [] OTHER -> << <<"TRACE.unknown-event", FALSE>> >>)
-  \o StateChecks(t) \o QueryChecks(t, ev.obs)
+  \o StateChecks(t) \o QueryChecks(t, ev.obs) \o WeightChecks(ev.obs)
 
 Report(ev, bad) ==
   IF bad = {} THEN TRUE
